@@ -100,6 +100,10 @@ theorem readByte_len {bs b r} (h : readByte bs = .ok (b, r)) : 1 + r.length = bs
 theorem readByte_ext {p b r} (q : Bytes) (h : readByte p = .ok (b, r)) : readByte (p ++ q) = .ok (b, r ++ q) :=
   Binary.readByte_ext q h
 attribute [grind →] readByte_len
+grind_pattern readByte_ext => readByte (p ++ q), readByte p, Out.ok (b, r)
+theorem checkSize_len {n r k} (h : Binary.checkSize n r = .ok k) : k ≤ r.length := (Binary.checkSize_ok h).1
+attribute [grind →] checkSize_len
+grind_pattern Binary.checkSize_ext => Binary.checkSize n (r ++ q), Binary.checkSize n r, Out.ok k
 
 @[simp] theorem readFieldBegin_ne_panic (s bs m) : readFieldBegin s bs ≠ .panic m := by unfold readFieldBegin; osplit
 @[simp] theorem readFieldBegin_ne_fuel (s bs) : readFieldBegin s bs ≠ .fuel := by unfold readFieldBegin; osplit
@@ -161,14 +165,6 @@ theorem readBool_ext {s p b s' r} (q : Bytes) (h : readBool s p = .ok (b, s', r)
     | panic m => simp [h1] at h
     | fuel => simp [h1] at h
 
-@[simp] theorem readSize_ne_panic (bs m) : readSize bs ≠ .panic m := by unfold readSize; osplit
-@[simp] theorem readSize_ne_fuel (bs) : readSize bs ≠ .fuel := by unfold readSize; osplit
-theorem readSize_len {bs n r} (h : readSize bs = .ok (n, r)) : 1 + r.length ≤ bs.length := by
-  unfold readSize at h; osplit_at h; grind
-attribute [grind →] readSize_len
-theorem readSize_ext {p n r} (q : Bytes) (h : readSize p = .ok (n, r)) : readSize (p ++ q) = .ok (n, r ++ q) := by
-  unfold readSize at h ⊢; osplit_at h; grind
-
 @[simp] theorem readBytes_ne_panic (bs m) : readBytes bs ≠ .panic m := by
   unfold readBytes; osplit <;> simp_all [Binary.splitTo]
 @[simp] theorem readBytes_ne_fuel (bs) : readBytes bs ≠ .fuel := by
@@ -211,7 +207,6 @@ theorem readCollBegin_len {bs x r} (h : readCollBegin bs = .ok (x, r)) : 1 + r.l
   | err k => simp [h1] at h
   | panic m => simp [h1] at h
   | fuel => simp [h1] at h
-grind_pattern readSize_ext => readSize (p ++ q), readSize p, Out.ok (n, r)
 theorem readCollBegin_ext {p x r} (q : Bytes) (h : readCollBegin p = .ok (x, r)) : readCollBegin (p ++ q) = .ok (x, r ++ q) := by
   unfold readCollBegin at h ⊢
   cases h1 : readByte p with
@@ -244,22 +239,17 @@ theorem readMapBegin_ext {p x r} (q : Bytes) (h : readMapBegin p = .ok (x, r)) :
     obtain ⟨n, r0⟩ := y
     simp only [h1] at h
     simp only [readVarU_ext q h1]
-    by_cases h0 : toS 4 n = 0
-    · simp [h0] at h ⊢; simp [h]
-    · simp only [h0, if_false] at h ⊢
-      cases h2 : readByte r0 with
-      | ok z =>
-        obtain ⟨hb, r1⟩ := z
-        simp only [h2] at h
-        simp only [readByte_ext q h2]
-        osplit_at h <;> simp_all
-      | err k => simp [h2] at h
-      | panic m => simp [h2] at h
-      | fuel => simp [h2] at h
+    cases h2 : Binary.checkSize (toS 4 n) r0 with
+    | ok cnt =>
+      simp only [h2] at h
+      simp only [Binary.checkSize_ext q h2]
+      osplit_at h <;> first | (simp_all; done) | grind
+    | err k => simp [h2] at h
+    | panic m => simp [h2] at h
+    | fuel => simp [h2] at h
   | err k => simp [h1] at h
   | panic m => simp [h1] at h
   | fuel => simp [h1] at h
-
 @[simp] theorem readStructEnd_ne_panic (s m) : readStructEnd s ≠ .panic m := by unfold readStructEnd; osplit
 @[simp] theorem readStructEnd_ne_fuel (s) : readStructEnd s ≠ .fuel := by unfold readStructEnd; osplit
 theorem readStructEnd_mu {s s'} (h : readStructEnd s = .ok s') : mu s' = mu s := by
